@@ -137,9 +137,12 @@ class Ctx(object):
         self.nontrivial = 0
         self.outcomes = {}
         self.keys = set()
+        self.nbad = 0
 
     def bad(self, key, msg, sub=None):
-        if key in self.keys and len(self.viol) > 40:
+        """one violation entry per key and case (the first, i.e. simplest, witness)."""
+        self.nbad += 1
+        if key in self.keys:
             return
         self.keys.add(key)
         self.viol.append({'key': key, 'msg': msg, 'sub': sub})
@@ -219,14 +222,17 @@ def mk(vals, size, tc):
     return M
 
 
-def _special_only(tc, got, exp):
+def _special_only(tc, got, exp, modnan=False):
     """True if got/exp (byte strings of equal length) differ only in complex elements that the conversion from a
     Python complex number is known to damage (see R.z_lossy)."""
     if tc != 'z' or len(got) != len(exp):
         return False
     ev = R.unpack('z', exp)
     for k, v in enumerate(ev):
-        if got[16 * k:16 * k + 16] != exp[16 * k:16 * k + 16] and not R.z_lossy(v):
+        g, e = got[16 * k:16 * k + 16], exp[16 * k:16 * k + 16]
+        if g == e or (modnan and R.same_mod_nan('z', g, e)):
+            continue
+        if not R.z_lossy(v):
             return False
     return True
 
@@ -246,7 +252,7 @@ def cmp_dense(c, site, M, exp, modnan=False, sub=None):
         return False
     ok = R.same_mod_nan(exp[1], got[3], exp[3]) if modnan else got[3] == exp[3]
     if not ok:
-        sfx = ':complex-special' if _special_only(exp[1], got[3], exp[3]) else ''
+        sfx = ':complex-special' if _special_only(exp[1], got[3], exp[3], modnan) else ''
         c.bad('C20:%s:values-differ%s' % (site, sfx), 'bytes %s, expected %s' % (_hx(got[3]), _hx(exp[3])), sub)
         return False
     return True
@@ -1418,7 +1424,7 @@ def _run_hist(case, c):
     states = 1
     frontier = [start] if ok else []
     d = len(start)
-    while frontier and d < depth and len(c.viol) < 60:
+    while frontier and d < depth:
         nxt = []
         for tr in frontier:
             m0 = R.HModel(tc)
